@@ -1,6 +1,8 @@
 //! C03: shadow-model monitor for tiny-std's Dlmalloc (private instance).
 //!
 //!   c03 hist  <seed> <nops> [w=<start>+<len>,...] [s=<start>+<len>:<r|R|u|U|b>,...] [k=<sweep period>] [k1from=<op>] [style=<n>]
+//!       f= : before these op indices the process forks; the CHILD overwrites all its live blocks, frees / reallocs /
+//!            mallocs a burst and leaves with _exit; the parent then re-verifies every live block and the heap invariants
 //!       s= : around the allocator calls of these op indices the ptrace monitor sysmon (the process must run under it)
 //!            is told to FAIL mremap (r: ENOMEM, R: EINVAL), munmap (u: ENOMEM, U: EINVAL) or both (b: ENOMEM)
 //!       one history in this process; prints '@@' lines; exit 0 ok, 3 violation reported,
@@ -487,6 +489,7 @@ fn classify_free(b: &VerifStats, a: &VerifStats) -> &'static str {
 fn hist(seed: u64, nops: u64, rest: &[String]) -> i32 {
     let mut faultspec = String::new();
     let mut sysspec = String::new();
+    let mut forks: Vec<u64> = Vec::new();
     let mut k: u64 = 0;
     let mut k1from: u64 = u64::MAX;
     let mut style = seed % 5;
@@ -497,6 +500,8 @@ fn hist(seed: u64, nops: u64, rest: &[String]) -> i32 {
             sysspec = v.to_string();
         } else if let Some(v) = a.strip_prefix("k=") {
             k = v.parse().unwrap_or(0);
+        } else if let Some(v) = a.strip_prefix("f=") {
+            forks = v.split(',').filter_map(|x| x.parse().ok()).collect();
         } else if let Some(v) = a.strip_prefix("k1from=") {
             k1from = v.parse().unwrap_or(u64::MAX);
         } else if let Some(v) = a.strip_prefix("style=") {
@@ -514,7 +519,8 @@ fn hist(seed: u64, nops: u64, rest: &[String]) -> i32 {
         })
         .collect();
     // everything needed to re-run this history, as arguments
-    let argspec = format!("w={faultspec} s={sysspec} style={style}");
+    let forkspec: Vec<String> = forks.iter().map(|f| f.to_string()).collect();
+    let argspec = format!("w={faultspec} s={sysspec} f={} style={style}", forkspec.join(","));
     if k == 0 {
         k = if nops <= 400 { 8 } else { 64 };
     }
@@ -589,7 +595,60 @@ fn hist(seed: u64, nops: u64, rest: &[String]) -> i32 {
     }
 
     let mut i: u64 = 0;
+    let mut fork_steps = 0u64;
+    let mut fork_blocks = 0u64;
     'ops: while i < nops {
+        if forks.contains(&i) {
+            // ---- fork step: what a forked child does to ITS heap must not reach the parent's live blocks ----
+            OP_INDEX.store(i, Relaxed);
+            OP_KIND.store(7, Relaxed);
+            h.recent.push_back(format!("{i}:fork (child overwrites its {} live blocks, frees/reallocs/mallocs, _exit)", sh.map.len()));
+            let blocks: Vec<(usize, Block)> = sh.map.iter().map(|(&ad, b)| (ad, b.clone())).collect();
+            let pid = fork_process();
+            if pid == 0 {
+                let code = match std::panic::catch_unwind(std::panic::AssertUnwindSafe(|| unsafe { forked_child(&mut a, &blocks, seed ^ i) })) {
+                    Ok(()) => 0,
+                    Err(_) => 9,
+                };
+                exit_now(code);
+            }
+            if pid < 0 {
+                vh::inconclusive(&format!("fork failed at op {i} (seed {seed})"));
+            } else {
+                let status = wait_for(pid);
+                fork_steps += 1;
+                if status != 0 {
+                    if status == 9 << 8 {
+                        viol!("C03/fork/panic-in-forked-child".to_string(), i, "\"live_blocks\":{}", blocks.len());
+                    } else if status != 3 << 8 {
+                        // (exit 3: the child's own crash handler has reported)
+                        vh::inconclusive(&format!("forked child ended with wait status {status:#x} at op {i} (seed {seed})"));
+                    } else {
+                        rc = 3;
+                    }
+                }
+                for (ad, b) in &blocks {
+                    fork_blocks += 1;
+                    if let Some(off) = unsafe { verify(*ad, b.size, b.seed, b.size) } {
+                        let got = unsafe { ((*ad + off) as *const u8).read() };
+                        viol!("C03/fork/live-block-changed-by-forked-child".to_string(), i,
+                            "\"block_size\":{},\"block_align\":{},\"offset\":{},\"byte_is_what_the_child_wrote\":{},\"live_blocks\":{}",
+                            b.size, b.align, off, got == pat_byte(b.seed ^ CHILD_XOR, off), blocks.len());
+                        break;
+                    }
+                }
+                WHERE.store(W_CHECK_CALL, Relaxed);
+                let ran = std::panic::catch_unwind(std::panic::AssertUnwindSafe(|| unsafe { a.verif_check() }));
+                WHERE.store(W_OTHER, Relaxed);
+                if ran.is_err() {
+                    viol!("C03/fork/heap-invariant-broken-after-forked-child".to_string(), i, "\"at\":{}", vh::js(&PANIC_LOC.lock().unwrap()));
+                }
+                if rc != 0 {
+                    break 'ops;
+                }
+                last_clean = i;
+            }
+        }
         let refusing = windows.iter().any(|&(s, l)| i >= s && i < s + l);
         let sysfail = syswin.iter().find(|&&(s, l, _)| i >= s && i < s + l).map(|w| w.2);
         {
@@ -923,6 +982,11 @@ fn hist(seed: u64, nops: u64, rest: &[String]) -> i32 {
     if !syswin.is_empty() {
         vh::count("allocator_calls_with_mremap_or_munmap_failing", sys_calls);
     }
+    if !forks.is_empty() {
+        vh::count("fork_steps", fork_steps);
+        vh::count("live_blocks_verified_after_a_forked_child", fork_blocks);
+        vh::distinct("fork-step");
+    }
     vh::count("refused_alloc_calls", c.refused_calls);
     vh::count("refused_free_calls", c.refused_free_calls);
     vh::count("refused_returned_null", c.nulls_refused);
@@ -937,6 +1001,7 @@ fn hist(seed: u64, nops: u64, rest: &[String]) -> i32 {
     vh::count("realloc_moved", c.realloc_moved);
     println!("##MAXLIVE {}", sh.max_live);
     if faultspec.is_empty() && sysspec.is_empty() {
+        let _ = &forkspec;
         vh::sample(
             &format!("{{\"case\":\"history\",\"seed\":{seed},\"nops\":{nops},\"style\":{style},\"ops_run\":{total},\"max_live_blocks\":{},\"profile\":{},\"distinct_cells\":{}}}",
                 sh.max_live, vh::js(if cfg!(debug_assertions) { "debug" } else { "release" }), vh::distinct_count()),
@@ -944,6 +1009,46 @@ fn hist(seed: u64, nops: u64, rest: &[String]) -> i32 {
         );
     }
     rc
+}
+
+const CHILD_XOR: u64 = 0x5555_AAAA_5555_AAAA;
+
+/// Runs in the forked child only: scribble over every live block, then use the (child's copy of the) allocator.
+unsafe fn forked_child(a: &mut Dlmalloc, blocks: &[(usize, Block)], seed: u64) {
+    let mut r = Rng::new(seed);
+    for (ad, b) in blocks {
+        fill(*ad, b.size, b.seed ^ CHILD_XOR);
+    }
+    WHERE.store(W_ALLOC_CALL, Relaxed);
+    for (j, (ad, b)) in blocks.iter().enumerate().take(64) {
+        match j % 3 {
+            0 => a.free(*ad as *mut u8),
+            1 => {
+                let p = a.realloc(*ad as *mut u8, b.size, b.align, b.size / 2 + 1);
+                if !p.is_null() {
+                    p.write_bytes(0xEE, b.size / 2 + 1);
+                }
+            }
+            _ => {
+                let new = (b.size * 2).min(1 << 20) + 1;
+                let p = a.realloc(*ad as *mut u8, b.size, b.align, new);
+                if !p.is_null() {
+                    p.write_bytes(0xEE, new);
+                }
+            }
+        }
+    }
+    for _ in 0..48 {
+        let size = gen_size(&mut r, 0, 1 << 20);
+        let p = a.malloc(size, gen_align(&mut r, 0));
+        if !p.is_null() {
+            p.write_bytes(0xEE, size);
+            if r.chance(1, 2) {
+                a.free(p);
+            }
+        }
+    }
+    WHERE.store(W_OTHER, Relaxed);
 }
 
 static PANIC_LOC: std::sync::Mutex<String> = std::sync::Mutex::new(String::new());
@@ -1000,6 +1105,14 @@ fn run_child(exe: &std::path::Path, seed: u64, nops: u64, extra: &[String], agg:
         // what did the monitor really fail? ("S seq tgid tid nr a0..a5 ret i")
         if let Ok(t) = std::fs::read_to_string(&log) {
             for l in t.lines() {
+                if l.starts_with("S ") {
+                    // evidence only (not a verdict): the flags of every anonymous mmap issued in the traced process
+                    // (HEAD's allocator and the harness itself use MAP_PRIVATE|MAP_ANONYMOUS = 0x22)
+                    let f: Vec<&str> = l.split(' ').collect();
+                    if f.len() > 11 && f[4] == "9" && f[9].starts_with("ffffffff") && !f[11].starts_with('-') {
+                        *agg.counts.entry(format!("traced_anonymous_mmap_flags_0x{}", f[8])).or_insert(0) += 1;
+                    }
+                }
                 if l.starts_with("S ") && l.ends_with(" i") {
                     let nr = l.split(' ').nth(4).unwrap_or("");
                     let name = match nr {
@@ -1132,8 +1245,11 @@ fn batch(seed: u64, budget: u64, rest: &[String]) {
             *r.pick(&[1000u64, 2000, 2000, 3000])
         };
         let nops = if debug && nops > 5000 { 5000 } else { nops };
+        // fork steps at seeded points (plain run and refusal run alike)
+        let fpts: Vec<String> = (0..3).map(|_| r.below(nops).to_string()).collect();
+        let farg = format!("f={}", fpts.join(","));
         // 1. plain
-        run_planned(&exe, hseed, nops, &[], &mut agg);
+        run_planned(&exe, hseed, nops, &[farg.clone()], &mut agg);
         // 2. the same history with sampled refusal windows (single calls and runs of j calls)
         let nwin = if thorough { 40 } else { 24 };
         let mut ws = Vec::new();
@@ -1143,7 +1259,7 @@ fn batch(seed: u64, budget: u64, rest: &[String]) {
             ws.push(format!("{start}+{len}"));
             positions += len;
         }
-        run_planned(&exe, hseed, nops, &[format!("w={}", ws.join(","))], &mut agg);
+        run_planned(&exe, hseed, nops, &[format!("w={}", ws.join(",")), farg], &mut agg);
     }
     // 3. short histories with a refusal at every op index, one child per position (exhaustive)
     let n_short = if thorough { (budget / 4).max(1) } else { u64::from(shard % 4 == 0) };
